@@ -343,6 +343,8 @@ func runC04(c *kit.Ctx) {
 	}
 
 	// ---- R4 ---------------------------------------------------------------
+	everyFailedResultReachesTheReaction(c)
+
 	c.StartRule("R4", "reaction to a failed result", 2)
 	{
 		regP, rcP := paramOfType(hre, "/hrpc.RegionInfo", 0), paramOfType(hre, "/hrpc.RegionClient", 0)
@@ -374,6 +376,9 @@ func runC04(c *kit.Ctx) {
 	lookupContexts(c)
 	failedAttemptRelooksUp(c)
 	tableNotFoundEvicts(c)
+	if gr := p.Func("", "client", "getRegionAndClientForRPC"); gr != nil {
+		waitOnTestedChannel(c, gr)
+	}
 
 	// a region replacing a moved/split/merged one becomes visible only once it is marked unavailable
 	markBeforePublish(c)
